@@ -298,3 +298,191 @@ Theorem C03_phased_iswap_is_conjugated_iswap : forall K (O : Ops K), Laws O -> f
            (mmul O (spec_ISwapPow O r rc g) (kron O (mdiag O [k1 O; e]) (mdiag O [k1 O; ec]))).
 Proof. exact @phased_iswap_is_conjugated_iswap. Qed.
 Print Assumptions C03_phased_iswap_is_conjugated_iswap.
+
+(* ======================================================================================================== *)
+(* second batch (Gates/MoreSpecs.v, Gates/MoreProofs.v): diagonal gates, BooleanHamiltonianGate, ParallelGate,
+   ArithmeticGate, the 24 single-qubit Cliffords, DensePauliString, UniformSuperpositionGate, PauliInteractionGate
+   constants, StatePreparationChannel / ResetChannel(d) / RandomGateChannel / MeasurementGate Kraus operators.
+   Sizes are universally quantified (any diagonal length, any number of copies, any register sizes, any string
+   length, any qudit dimension); the Clifford table is a finite domain (24 cases). *)
+From Coq Require Import Arith Bool.
+From VF Require Import Base.Tensor Gates.MoreSpecs Gates.MoreProofs.
+Close Scope Qc_scope.
+
+(* ---- TwoQubitDiagonalGate / ThreeQubitDiagonalGate / DiagonalGate ---- *)
+Theorem C03_diag_mul : forall K (O : Ops K), Laws O -> forall a b : list K, length a = length b ->
+  mmul O (spec_Diagonal O a) (spec_Diagonal O b) = spec_Diagonal O (vmul O a b).
+Proof. exact @diag_mul. Qed.
+Print Assumptions C03_diag_mul.
+Theorem C03_diag_commute : forall K (O : Ops K), Laws O -> forall a b : list K, length a = length b ->
+  mmul O (spec_Diagonal O a) (spec_Diagonal O b) = mmul O (spec_Diagonal O b) (spec_Diagonal O a).
+Proof. exact @diag_commute. Qed.
+Print Assumptions C03_diag_commute.
+Theorem C03_diag_unitary : forall K (O : Ops K), Laws O -> forall d : list K,
+  Forall (fun x => kmul O x (kconj O x) = k1 O) d ->
+  mmul O (spec_Diagonal O d) (mdagger O (spec_Diagonal O d)) = mid O (length d).
+Proof. exact @diag_unitary. Qed.
+Print Assumptions C03_diag_unitary.
+
+(* ---- BooleanHamiltonianGate ---- *)
+Theorem C03_bh_entries : forall K (O : Ops K) n es (u : K) i j,
+  i < length (enum (repeat 2 n)) -> j < length (enum (repeat 2 n)) ->
+  mget O (spec_BoolHam O n es u) i j
+  = if Nat.eqb i j then kpow O u (bh_count es (nth i (enum (repeat 2 n)) [])) else k0 O.
+Proof. exact @bh_entries. Qed.
+Print Assumptions C03_bh_entries.
+Theorem C03_bh_compose : forall K (O : Ops K), Laws O -> forall n es (u v : K),
+  mmul O (spec_BoolHam O n es u) (spec_BoolHam O n es v) = spec_BoolHam O n es (kmul O u v).
+Proof. exact @bh_compose. Qed.
+Print Assumptions C03_bh_compose.
+Theorem C03_bh_clauses_add : forall K (O : Ops K), Laws O -> forall n es1 es2 (u : K),
+  spec_BoolHam O n (es1 ++ es2) u = mmul O (spec_BoolHam O n es1 u) (spec_BoolHam O n es2 u).
+Proof. exact @bh_clauses_add. Qed.
+Print Assumptions C03_bh_clauses_add.
+Theorem C03_bh_commute : forall K (O : Ops K), Laws O -> forall n es1 es2 (u v : K),
+  mmul O (spec_BoolHam O n es1 u) (spec_BoolHam O n es2 v) = mmul O (spec_BoolHam O n es2 v) (spec_BoolHam O n es1 u).
+Proof. exact @bh_commute. Qed.
+Print Assumptions C03_bh_commute.
+Theorem C03_bh_unitary : forall K (O : Ops K), Laws O -> forall n es (u uc : K),
+  kmul O u uc = k1 O -> kconj O u = uc ->
+  mmul O (spec_BoolHam O n es u) (mdagger O (spec_BoolHam O n es u)) = mid O (length (enum (repeat 2 n))).
+Proof. exact @bh_unitary. Qed.
+Print Assumptions C03_bh_unitary.
+
+(* ---- ParallelGate ---- *)
+Theorem C03_parallel_is_kron_power : forall K (O : Ops K) n (u : matrix (K:=K)),
+  spec_Parallel O 0 u = [[k1 O]] /\ spec_Parallel O (S n) u = kron O u (spec_Parallel O n u).
+Proof. intros K O n u. split; [exact (parallel_zero O u) | exact (parallel_succ O n u)]. Qed.
+Print Assumptions C03_parallel_is_kron_power.
+Theorem C03_parallel_one : forall K (O : Ops K), Laws O -> forall d (u : matrix (K:=K)), sq d u -> spec_Parallel O 1 u = u.
+Proof. exact @parallel_one. Qed.
+Print Assumptions C03_parallel_one.
+Theorem C03_parallel_mul : forall K (O : Ops K), Laws O -> forall n d (u v : matrix (K:=K)), 0 < d -> sq d u -> sq d v ->
+  mmul O (spec_Parallel O n u) (spec_Parallel O n v) = spec_Parallel O n (mmul O u v).
+Proof. exact @parallel_mul. Qed.
+Print Assumptions C03_parallel_mul.
+Theorem C03_parallel_dagger : forall K (O : Ops K), Laws O -> forall n d (u : matrix (K:=K)), 0 < d -> sq d u ->
+  mdagger O (spec_Parallel O n u) = spec_Parallel O n (mdagger O u).
+Proof. exact @parallel_dagger. Qed.
+Print Assumptions C03_parallel_dagger.
+Theorem C03_parallel_unitary : forall K (O : Ops K), Laws O -> forall n d (u : matrix (K:=K)), 0 < d -> sq d u ->
+  mmul O u (mdagger O u) = mid O d ->
+  mmul O (spec_Parallel O n u) (mdagger O (spec_Parallel O n u)) = spec_Parallel O n (mid O d).
+Proof. exact @parallel_unitary. Qed.
+Print Assumptions C03_parallel_unitary.
+
+(* ---- DensePauliString / MutableDensePauliString as a gate ---- *)
+Theorem C03_pauli4_mul : forall K (O : Ops K), Laws O -> forall x y,
+  mmul O (pauli4 O x) (pauli4 O y) = mscale O (kpow O (ki O) (pmul_phase x y)) (pauli4 O (pmul_code x y)).
+Proof. exact @pauli4_mul. Qed.
+Print Assumptions C03_pauli4_mul.
+Theorem C03_dense_pauli_mul : forall K (O : Ops K), Laws O -> forall (c c' : K) a b, length a = length b ->
+  mmul O (spec_DensePauli O c a) (spec_DensePauli O c' b)
+  = spec_DensePauli O (kmul O (kmul O c c') (kpow O (ki O) (dp_phase a b))) (dp_code a b).
+Proof. exact @dense_pauli_mul. Qed.
+Print Assumptions C03_dense_pauli_mul.
+
+(* ---- ArithmeticGate ---- *)
+Theorem C03_perm_compose : forall K (O : Ops K), Laws O -> forall N (f g : nat -> nat), (forall k, k < N -> g k < N) ->
+  mmul O (spec_BasisPerm O N f) (spec_BasisPerm O N g) = spec_BasisPerm O N (fun k => f (g k)).
+Proof. exact @perm_compose. Qed.
+Print Assumptions C03_perm_compose.
+Theorem C03_perm_unitary_iff : forall K (O : Ops K), Laws O -> forall N (f : nat -> nat), k1 O <> k0 O ->
+  (forall j, j < N -> f j < N) ->
+  (mmul O (mdagger O (spec_BasisPerm O N f)) (spec_BasisPerm O N f) = mid O N
+   <-> (forall j k, j < N -> k < N -> f j = f k -> j = k)).
+Proof. exact @perm_unitary_iff. Qed.
+Print Assumptions C03_perm_unitary_iff.
+Theorem C03_arith_target_lt : forall regs apply j t, j < size (arith_sizes regs) ->
+  arith_target regs apply j = Some t -> t < size (arith_sizes regs).
+Proof. exact arith_target_lt. Qed.
+Print Assumptions C03_arith_target_lt.
+Theorem C03_arith_unitary_iff : forall K (O : Ops K), Laws O -> forall regs apply (M : matrix (K:=K)), k1 O <> k0 O ->
+  spec_Arith O regs apply = Some M ->
+  (mmul O (mdagger O M) M = mid O (size (arith_sizes regs))
+   <-> (forall j k, j < size (arith_sizes regs) -> k < size (arith_sizes regs) ->
+                    arith_tgt regs apply j = arith_tgt regs apply k -> j = k)).
+Proof. exact @arith_unitary_iff. Qed.
+Print Assumptions C03_arith_unitary_iff.
+Theorem C03_arith_compose : forall K (O : Ops K), Laws O -> forall regs ap1 ap2 (M1 M2 : matrix (K:=K)),
+  spec_Arith O regs ap1 = Some M1 -> spec_Arith O regs ap2 = Some M2 ->
+  mmul O M1 M2 = spec_BasisPerm O (size (arith_sizes regs)) (fun j => arith_tgt regs ap1 (arith_tgt regs ap2 j)).
+Proof. exact @arith_compose. Qed.
+Print Assumptions C03_arith_compose.
+Theorem C03_arith_add_const : forall dims c j, j < size dims ->
+  arith_target [RQu dims; RConst c] (aop_apply OpAdd) j = Some (Z.to_nat ((Z.of_nat j + c) mod Z.of_nat (size dims))).
+Proof. exact arith_add_const. Qed.
+Print Assumptions C03_arith_add_const.
+Theorem C03_arith_doc_example : forall K (O : Ops K),
+  spec_Arith O [RQu [2; 2]; RConst 1] (aop_apply OpAdd)
+  = Some [[k0 O; k0 O; k0 O; k1 O]; [k1 O; k0 O; k0 O; k0 O]; [k0 O; k1 O; k0 O; k0 O]; [k0 O; k0 O; k1 O; k0 O]].
+Proof. exact @arith_doc_example. Qed.
+Print Assumptions C03_arith_doc_example.
+
+(* ---- SingleQubitCliffordGate: all_single_qubit_cliffords (finite domain, 24 cases) ---- *)
+Theorem C03_cliff_conj : forall K (O : Ops K), Laws O -> forall k, k < 24 ->
+  conj_by O (cliff_unitary O k) (pauli_mat O 0) = signed_pauli O (fst (nth k cliff_images cliff_dflt)) /\
+  conj_by O (cliff_unitary O k) (pauli_mat O 2) = signed_pauli O (snd (nth k cliff_images cliff_dflt)).
+Proof. exact @cliff_conj. Qed.
+Print Assumptions C03_cliff_conj.
+Theorem C03_cliff_unitary : forall K (O : Ops K), Laws O -> forall k, k < 24 ->
+  mmul O (cliff_unitary O k) (mdagger O (cliff_unitary O k)) = mid O 2.
+Proof. exact @cliff_unitary_ok. Qed.
+Print Assumptions C03_cliff_unitary.
+Theorem C03_cliff_conj_k8 : forall k, In k (seq 0 24) -> cliff_ok_k8 k = true.
+Proof. exact cliff_conj_k8. Qed.
+Print Assumptions C03_cliff_conj_k8.
+Theorem C03_cliff_images_distinct : NoDup cliff_images /\ length cliff_images = 24.
+Proof. split; [exact cliff_images_distinct | reflexivity]. Qed.
+Print Assumptions C03_cliff_images_distinct.
+
+(* ---- PauliInteractionGate.CZ / .CNOT ---- *)
+Theorem C03_pi_ZZ_is_CZPow : forall K (O : Ops K), Laws O -> forall r rc g : K,
+  spec_PI O 2 false 2 false r rc g = spec_CZPow O r rc g.
+Proof. exact @pi_ZZ_is_CZPow. Qed.
+Print Assumptions C03_pi_ZZ_is_CZPow.
+Theorem C03_pi_ZX_is_CXPow : forall K (O : Ops K), Laws O -> forall r rc g : K, kmul O r rc = k1 O ->
+  spec_PI O 2 false 0 false r rc g = spec_CXPow O r rc g.
+Proof. exact @pi_ZX_is_CXPow. Qed.
+Print Assumptions C03_pi_ZX_is_CXPow.
+
+(* ---- UniformSuperpositionGate ---- *)
+Theorem C03_uniform_length : forall K (O : Ops K) (s : K) M n, M <= Nat.pow 2 n ->
+  length (spec_UniformSup_col O s M n) = Nat.pow 2 n.
+Proof. exact @uniform_length. Qed.
+Print Assumptions C03_uniform_length.
+Theorem C03_uniform_norm : forall K (O : Ops K), Laws O -> forall (s : K) M n,
+  ksum O (map (fun x => kmul O x (kconj O x)) (spec_UniformSup_col O s M n)) = kmuln O M (kmul O s (kconj O s)).
+Proof. exact @uniform_norm. Qed.
+Print Assumptions C03_uniform_norm.
+
+(* ---- channels: StatePreparationChannel, ResetChannel(d), MeasurementGate, RandomGateChannel ---- *)
+Theorem C03_ketbra_tp : forall K (O : Ops K), Laws O -> forall psi : list K,
+  ksum O (map (fun x => kmul O (kconj O x) x) psi) = k1 O ->
+  kraus_gram_n O (length psi) (ketbra_ops O psi) = mid O (length psi).
+Proof. exact @ketbra_tp. Qed.
+Print Assumptions C03_ketbra_tp.
+Theorem C03_reset_tp : forall K (O : Ops K), Laws O -> forall d, 0 < d -> kraus_gram_n O d (spec_Reset O d) = mid O d.
+Proof. exact @reset_tp. Qed.
+Print Assumptions C03_reset_tp.
+Theorem C03_measure_tp : forall K (O : Ops K), Laws O -> forall N, kraus_gram_n O N (spec_Measure O N) = mid O N.
+Proof. exact @measure_tp. Qed.
+Print Assumptions C03_measure_tp.
+Theorem C03_random_gate_tp : forall K (O : Ops K), Laws O -> forall n (sp sq_ : K) (ks : list (matrix (K:=K))),
+  0 < n -> Forall (sq n) ks -> kconj O sp = sp -> kconj O sq_ = sq_ ->
+  kadd O (kmul O sp sp) (kmul O sq_ sq_) = k1 O -> kraus_gram_n O n ks = mid O n ->
+  kraus_gram_n O n (spec_RandomGate_kraus O sp sq_ n ks) = mid O n.
+Proof. exact @random_gate_tp. Qed.
+Print Assumptions C03_random_gate_tp.
+
+(* non-vacuity of the hypotheses used above, in the exact instance Q(zeta_8) *)
+Theorem C03_more_hyps_inhabited :
+  kmul K8Ops zeta8 zeta8c = k1 K8Ops /\ kconj K8Ops zeta8 = zeta8c
+  /\ Forall (fun x => kmul K8Ops x (kconj K8Ops x) = k1 K8Ops) [k1 K8Ops; ki K8Ops; zeta8]
+  /\ ksum K8Ops (map (fun x => kmul K8Ops (kconj K8Ops x) x) [ks2 K8Ops; kmul K8Ops (ki K8Ops) (ks2 K8Ops)]) = k1 K8Ops
+  /\ kconj K8Ops (ks2 K8Ops) = ks2 K8Ops
+  /\ kadd K8Ops (kmul K8Ops (ks2 K8Ops) (ks2 K8Ops)) (kmul K8Ops (ks2 K8Ops) (ks2 K8Ops)) = k1 K8Ops
+  /\ kraus_gram_n K8Ops 2 [mid K8Ops 2] = mid K8Ops 2 /\ sq 2 (mid K8Ops 2)
+  /\ k1 K8Ops <> k0 K8Ops.
+Proof. exact more_hyps_inhabited. Qed.
+Print Assumptions C03_more_hyps_inhabited.
